@@ -7,6 +7,7 @@ import (
 	"go/ast"
 	"go/constant"
 	"go/token"
+	"os"
 	"sort"
 	"strings"
 )
@@ -27,6 +28,16 @@ type nLet struct {
 	body gnode
 }
 type nRet struct{ vals []ex }
+
+// a joined if: `if c { A }; rest` whose branches only assign variables is the value (the tuple of those variables) of an
+// if-expression, followed by rest ONCE (instead of rest once per branch)
+type nTuple struct{ names []string }
+type nJoin struct {
+	inner   gnode
+	partial bool
+	names   []string
+	body    gnode
+}
 type nPanic struct{ why string }
 type nFind struct {
 	binder   string // the lambda's variable
@@ -64,6 +75,10 @@ func nodePartial(n gnode) bool {
 		return true
 	case *nFind:
 		return len(x.list.binds) > 0 || nodePartial(x.found) || nodePartial(x.notfound)
+	case *nLoop, *nLoopNext, *nLoopExit:
+		return true // a loop can run out of fuel
+	case *nJoin:
+		return x.partial || nodePartial(x.body)
 	}
 	return false
 }
@@ -76,13 +91,35 @@ func withBinds(binds []gbind, inner string, ind string) string {
 	return s
 }
 
-func render(n gnode, partial bool, ind string) string {
+// render modes: the body of a total function, of a partial one (results under Some, None = Go panics or a loop ran
+// out of fuel), and the body of a loop function (results under Some (go_ret ...), see gotrans_loop.go).
+const (
+	mTotal = iota
+	mPartial
+	mLoop
+	mJoinT // the value of a joined if (the tuple of the variables its branches assign), total
+	mJoinP // ... partial: under Some
+)
+
+func retText(mode int, s string) string {
+	switch mode {
+	case mPartial:
+		return "Some " + paren(s)
+	case mLoop:
+		return "Some (go_ret " + paren(s) + ")"
+	case mJoinT, mJoinP:
+		return "UNRENDERABLE (* a return inside a joined if *)"
+	}
+	return s
+}
+
+func render(n gnode, mode int, ind string) string {
 	switch x := n.(type) {
 	case *nIf:
-		s := fmt.Sprintf("if %s\n%sthen %s\n%selse %s", x.cond.code, ind, render(x.a, partial, ind+"  "), ind, render(x.b, partial, ind+"  "))
+		s := fmt.Sprintf("if %s\n%sthen %s\n%selse %s", x.cond.code, ind, render(x.a, mode, ind+"  "), ind, render(x.b, mode, ind+"  "))
 		return withBinds(x.cond.binds, s, ind)
 	case *nLet:
-		s := fmt.Sprintf("let %s := %s in\n%s%s", x.name, x.val.code, ind, render(x.body, partial, ind))
+		s := fmt.Sprintf("let %s := %s in\n%s%s", x.name, x.val.code, ind, render(x.body, mode, ind))
 		return withBinds(x.val.binds, s, ind)
 	case *nRet:
 		var binds []gbind
@@ -91,27 +128,53 @@ func render(n gnode, partial bool, ind string) string {
 			binds = mergeBinds(binds, v.binds)
 			codes = append(codes, v.code)
 		}
-		s := codes[0]
+		s := "tt"
+		if len(codes) > 0 {
+			s = codes[0]
+		}
 		if len(codes) > 1 {
 			s = "(" + strings.Join(codes, ", ") + ")"
 		}
-		if partial {
-			s = "Some " + paren(s)
-		}
-		return withBinds(binds, s, ind)
+		return withBinds(binds, retText(mode, s), ind)
 	case *nOpt:
-		s := fmt.Sprintf("match %s with\n%s| Some %s => %s\n%s| None => %s\n%send", x.scrut.code, ind, x.binder, render(x.some, partial, ind+"    "), ind, render(x.none, partial, ind+"    "), ind)
+		s := fmt.Sprintf("match %s with\n%s| Some %s => %s\n%s| None => %s\n%send", x.scrut.code, ind, x.binder, render(x.some, mode, ind+"    "), ind, render(x.none, mode, ind+"    "), ind)
 		return withBinds(x.scrut.binds, s, ind)
 	case *nPanic:
 		return "None (* " + strings.ReplaceAll(x.why, "*)", "* )") + " *)"
 	case *nFind:
 		lam := fmt.Sprintf("(fun %s => %s%s)", x.binder, x.pre, x.cond.code)
-		found := render(x.found, partial, ind+"    ")
+		found := render(x.found, mode, ind+"    ")
 		if x.pre != "" {
 			found = x.pre + found
 		}
-		s := fmt.Sprintf("match find %s %s with\n%s| Some %s => %s\n%s| None => %s\n%send", lam, x.list.code, ind, x.binder, found, ind, render(x.notfound, partial, ind+"    "), ind)
+		s := fmt.Sprintf("match find %s %s with\n%s| Some %s => %s\n%s| None => %s\n%send", lam, x.list.code, ind, x.binder, found, ind, render(x.notfound, mode, ind+"    "), ind)
 		return withBinds(x.list.binds, s, ind)
+	case *nLoop:
+		ret := retText(mode, "r")
+		if mode == mJoinT || mode == mJoinP {
+			ret = "None (* unreachable: no return inside a joined if *)"
+		}
+		s := fmt.Sprintf("match %s with\n%s| None => None\n%s| Some (go_ret r) => %s\n%s| Some (go_exit %s) => %s\n%send",
+			x.lp.callText(x.init, x.free), ind, ind, ret, ind, x.pat, render(x.after, mode, ind+"    "), ind)
+		return withBinds(x.binds, s, ind)
+	case *nTuple:
+		if mode == mJoinP {
+			return "Some " + paren(tupleOf(x.names))
+		}
+		return tupleOf(x.names)
+	case *nJoin:
+		pat := x.names[0]
+		if len(x.names) > 1 {
+			pat = "'" + tupleOf(x.names)
+		}
+		if x.partial {
+			return fmt.Sprintf("go_bind (%s) (fun %s =>\n%s%s)", render(x.inner, mJoinP, ind+"  "), pat, ind, render(x.body, mode, ind))
+		}
+		return fmt.Sprintf("let %s := (%s) in\n%s%s", pat, render(x.inner, mJoinT, ind+"  "), ind, render(x.body, mode, ind))
+	case *nLoopNext:
+		return x.lp.nextText(x.state)
+	case *nLoopExit:
+		return "Some (go_exit " + tupleOf(x.state) + ")"
 	}
 	return "UNRENDERABLE"
 }
@@ -160,6 +223,9 @@ func (tr *gtTr) bindNew(env *venv, goName string, val ex, declare bool, next con
 		}
 	}
 	name := tr.newName(goName)
+	if tr.elemMut && (val.typ.kind == kMap || val.typ.kind == kSlice) && !val.fresh {
+		gtFail("%s would alias a map or slice in a function that assigns elements (outside the subset)", goName)
+	}
 	if declare {
 		if !val.typ.supported() {
 			gtFail("variable %s of type %s is outside the subset", goName, val.typ.name)
@@ -236,13 +302,33 @@ func (tr *gtTr) stmt(s ast.Stmt, env *venv, next cont) gnode {
 	case *ast.BlockStmt:
 		return tr.scoped(env, next, func(e *venv, nx cont) gnode { return tr.block(x.List, e, nx) })
 	case *ast.ReturnStmt:
+		if len(x.Results) == 0 && len(tr.named) > 0 {
+			// a bare return with named results: their current values
+			var rs []ast.Expr
+			for _, n := range tr.named {
+				if v := env.lookup(n); v == nil || v.typ.kind == kStruct {
+					gtFail("bare return: the named result %s is shadowed here", n)
+				}
+				rs = append(rs, ast.NewIdent(n))
+			}
+			return tr.stmt(&ast.ReturnStmt{Results: rs}, env, next)
+		}
 		if len(x.Results) != len(tr.fn.results) {
 			gtFail("return with %d values for %d results (named results are outside the subset)", len(x.Results), len(tr.fn.results))
 		}
 		var vals []ex
+		for _, k := range tr.mutKeys() {
+			n, t := tr.useKey(env, k)
+			vals = append(vals, ex{code: n, typ: t})
+		}
 		for i, r := range x.Results {
-			v := tr.expr(r, env)
 			rt := tr.fn.results[i]
+			var v ex
+			if rt.isErr && isIdent(unparen(r), "nil") && env.lookup("nil") == nil {
+				v = ex{code: "false", typ: tErr}
+			} else {
+				v = tr.expr(r, env)
+			}
 			if rt.kind == kValue {
 				v = tr.toValue(v, "return")
 			}
@@ -263,6 +349,31 @@ func (tr *gtTr) stmt(s ast.Stmt, env *venv, next cont) gnode {
 			if why, ok := tr.diverges(c, env); ok {
 				return &nPanic{why: why}
 			}
+			if n, ok := tr.mutCall(c, nil, false, env, next); ok {
+				return n
+			}
+			if id, ok := c.Fun.(*ast.Ident); ok && tr.cfg != nil && env.lookup(id.Name) == nil {
+				for _, ig := range tr.cfg.ignore {
+					if ig == id.Name {
+						// a hook that the configuration declares to be outside what is translated (gotrans_apply.go says why)
+						for _, a := range c.Args {
+							if e := tr.expr(a, env); len(e.binds) > 0 {
+								gtFail("call of %s with an argument that can panic", id.Name)
+							}
+						}
+						return next(env)
+					}
+				}
+			}
+			if pkg, name, ok := tr.libCall(c, env); ok && pkg == "log" && (name == "Println" || name == "Printf" || name == "Print") {
+				// the process log is not part of what is modelled; the arguments must be in the subset and total
+				for _, a := range c.Args {
+					if e := tr.expr(a, env); len(e.binds) > 0 {
+						gtFail("log.%s with an argument that can panic", name)
+					}
+				}
+				return next(env)
+			}
 		}
 		gtFail("expression statement %s (a call with effects) is outside the subset", gtExprText(x.X))
 	case *ast.DeclStmt:
@@ -279,6 +390,17 @@ func (tr *gtTr) stmt(s ast.Stmt, env *venv, next cont) gnode {
 			var dt *gtype
 			if vs.Type != nil {
 				dt = tr.g.resolveType(tr.p, tr.f, vs.Type, 0)
+			}
+			if len(vs.Values) == 1 && dt == nil && len(gd.Specs) == 1 {
+				if c, ok := unparen(vs.Values[0]).(*ast.CallExpr); ok {
+					var ns []string
+					for _, n := range vs.Names {
+						ns = append(ns, n.Name)
+					}
+					if n, ok := tr.mutCall(c, ns, true, env, next); ok {
+						return n
+					}
+				}
 			}
 			if len(vs.Values) != 0 && len(vs.Values) != len(vs.Names) {
 				// var v, ok = m[k]
@@ -315,13 +437,13 @@ func (tr *gtTr) stmt(s ast.Stmt, env *venv, next cont) gnode {
 	case *ast.AssignStmt:
 		return tr.assign(x, env, next)
 	case *ast.IncDecStmt:
-		id, ok := x.X.(*ast.Ident)
-		if !ok {
-			gtFail("++/-- on something that is not a local variable")
-		}
 		op := token.ADD
 		if x.Tok == token.DEC {
 			op = token.SUB
+		}
+		id, ok := x.X.(*ast.Ident)
+		if !ok {
+			return tr.assignState(x.X, tr.expr(&ast.BinaryExpr{X: x.X, Op: op, Y: &ast.BasicLit{Kind: token.INT, Value: "1"}}, env), env, next)
 		}
 		v := tr.expr(&ast.BinaryExpr{X: id, Op: op, Y: &ast.BasicLit{Kind: token.INT, Value: "1"}}, env)
 		return tr.bindNew(env, id.Name, v, false, next)
@@ -341,6 +463,9 @@ func (tr *gtTr) stmt(s ast.Stmt, env *venv, next cont) gnode {
 						return nx(e1)
 					}
 					return tr.stmt(x.Else, e1, nx)
+				}
+				if n, ok := tr.joinIf(x, cond, e1, nx); ok {
+					return n
 				}
 				a := tr.scoped(e1.clone(), nx, func(e2 *venv, nx2 cont) gnode { return tr.block(x.Body.List, e2, nx2) })
 				var b gnode
@@ -363,6 +488,11 @@ func (tr *gtTr) stmt(s ast.Stmt, env *venv, next cont) gnode {
 	case *ast.BranchStmt:
 		if x.Tok == token.BREAK && x.Label == nil && len(tr.brk) > 0 {
 			t := tr.brk[len(tr.brk)-1]
+			env.scopes = env.scopes[:t.depth]
+			return t.k(env)
+		}
+		if x.Tok == token.CONTINUE && x.Label == nil && len(tr.cnt) > 0 {
+			t := tr.cnt[len(tr.cnt)-1]
 			env.scopes = env.scopes[:t.depth]
 			return t.k(env)
 		}
@@ -404,12 +534,36 @@ func (tr *gtTr) simple(s ast.Stmt, env *venv, next cont) gnode {
 
 func (tr *gtTr) assign(x *ast.AssignStmt, env *venv, next cont) gnode {
 	names := make([]string, len(x.Lhs))
+	allIdents := true
 	for i, l := range x.Lhs {
 		id, ok := l.(*ast.Ident)
 		if !ok {
-			gtFail("assignment to %s (not a local variable) is outside the subset", gtExprText(l))
+			allIdents = false
+			continue
 		}
 		names[i] = id.Name
+	}
+	if !allIdents {
+		// x.f = e, m[k] = e, s[i] = e, x.f op= e: one target
+		if len(x.Lhs) != 1 || len(x.Rhs) != 1 || x.Tok == token.DEFINE {
+			gtFail("assignment to %s among several targets is outside the subset", gtExprText(x.Lhs[0]))
+		}
+		rhs := x.Rhs[0]
+		if x.Tok != token.ASSIGN {
+			op, ok := assignOps[x.Tok]
+			if !ok {
+				gtFail("assignment operator %s is outside the subset", x.Tok)
+			}
+			rhs = &ast.BinaryExpr{X: x.Lhs[0], Op: op, Y: &ast.ParenExpr{X: rhs}}
+		}
+		return tr.assignState(x.Lhs[0], tr.expr(rhs, env), env, next)
+	}
+	if len(x.Rhs) == 1 && (x.Tok == token.DEFINE || x.Tok == token.ASSIGN) {
+		if c, ok := unparen(x.Rhs[0]).(*ast.CallExpr); ok {
+			if n, ok := tr.mutCall(c, names, x.Tok == token.DEFINE, env, next); ok {
+				return n
+			}
+		}
 	}
 	switch x.Tok {
 	case token.DEFINE, token.ASSIGN:
@@ -454,15 +608,17 @@ func (tr *gtTr) assign(x *ast.AssignStmt, env *venv, next cont) gnode {
 		if len(x.Lhs) != 1 || len(x.Rhs) != 1 {
 			gtFail("op= with several operands")
 		}
-		op := map[token.Token]token.Token{token.ADD_ASSIGN: token.ADD, token.SUB_ASSIGN: token.SUB, token.MUL_ASSIGN: token.MUL, token.QUO_ASSIGN: token.QUO,
-			token.REM_ASSIGN: token.REM, token.AND_ASSIGN: token.AND, token.OR_ASSIGN: token.OR, token.XOR_ASSIGN: token.XOR, token.SHL_ASSIGN: token.SHL,
-			token.SHR_ASSIGN: token.SHR, token.AND_NOT_ASSIGN: token.AND_NOT}[x.Tok]
+		op := assignOps[x.Tok]
 		v := tr.expr(&ast.BinaryExpr{X: x.Lhs[0], Op: op, Y: &ast.ParenExpr{X: x.Rhs[0]}}, env)
 		return tr.bindNew(env, names[0], v, false, next)
 	}
 	gtFail("assignment operator %s is outside the subset", x.Tok)
 	return nil
 }
+
+var assignOps = map[token.Token]token.Token{token.ADD_ASSIGN: token.ADD, token.SUB_ASSIGN: token.SUB, token.MUL_ASSIGN: token.MUL, token.QUO_ASSIGN: token.QUO,
+	token.REM_ASSIGN: token.REM, token.AND_ASSIGN: token.AND, token.OR_ASSIGN: token.OR, token.XOR_ASSIGN: token.XOR, token.SHL_ASSIGN: token.SHL,
+	token.SHR_ASSIGN: token.SHR, token.AND_NOT_ASSIGN: token.AND_NOT}
 
 func declaredHere(e *venv, name string) bool {
 	_, ok := e.scopes[len(e.scopes)-1][name]
@@ -516,12 +672,65 @@ func (tr *gtTr) commaOk(vName, okName string, rhs ast.Expr, declare bool, env *v
 			okv.binds = nil
 			return tr.bindNew(e, okName, okv, declOk, next)
 		})
+	case *ast.CallExpr:
+		if pkg, name, ok := tr.libCall(r, env); ok {
+			var fn, typ string
+			var t1, t2 *gtype
+			switch {
+			case pkg == "unicode/utf8" && name == "DecodeRuneInString" && len(r.Args) == 1:
+				// (rune, width) of the first rune of the string: the parameter f_utf8_DecodeRuneInString
+				fn, typ, t1, t2 = "f_utf8_DecodeRuneInString", "bstr -> Z * Z", basicInts["rune"], basicInts["int"]
+			case pkg == "strconv" && name == "ParseInt" && len(r.Args) == 3:
+				// (value, err != nil): the parameter f_strconv_ParseInt
+				fn, typ, t1, t2 = "f_strconv_ParseInt", "bstr -> Z -> Z -> Z * bool", basicInts["int64"], tErr
+			default:
+				gtFail("two-valued library call %s.%s is not in the fixed list", pkg, name)
+			}
+			args, binds := tr.args(r.Args, env)
+			parts := []string{fn}
+			for i, a := range args {
+				want := kInt
+				if i == 0 {
+					want = kString
+				}
+				if a.typ.kind != want {
+					gtFail("%s.%s: argument %d is a %s", pkg, name, i+1, a.typ.name)
+				}
+				parts = append(parts, a.code)
+			}
+			tr.fn.addAbstract(gtAbstract{name: fn, typ: typ})
+			n1, n2 := "_", "_"
+			if vName != "_" {
+				n1 = tr.newName(vName)
+			}
+			if okName != "_" {
+				n2 = tr.newName(okName)
+			}
+			bindOne := func(goName, coq string, t *gtype, decl bool) {
+				if goName == "_" {
+					return
+				}
+				if decl {
+					env.declare(goName, &gvar{coq: coq, typ: t, goName: goName})
+					return
+				}
+				v := env.lookup(goName)
+				if v == nil || v.typ.kind != t.kind || v.typ.kind == kStruct || v.ptr || v.banned != "" || v.indexOf != nil {
+					gtFail("two-valued assignment: %s cannot receive a %s", goName, t.name)
+				}
+				if v.typ.kind == kInt && (v.typ.bits != t.bits || v.typ.signed != t.signed) {
+					gtFail("two-valued assignment: mismatched integer types %s and %s", v.typ.name, t.name)
+				}
+				env.assign(goName, coq)
+			}
+			bindOne(vName, n1, t1, declV)
+			bindOne(okName, n2, t2, declOk)
+			return &nLet{name: "'(" + n1 + ", " + n2 + ")", val: ex{binds: binds, code: "(" + strings.Join(parts, " ") + ")", typ: t1}, body: next(env)}
+		}
+		gtFail("two-valued assignment from %s is outside the subset", gtExprText(rhs))
 	case *ast.TypeAssertExpr:
 		if r.Type == nil {
 			gtFail("x.(type) outside a type switch")
-		}
-		if vName != "_" {
-			gtFail("v, ok := x.(T) with the asserted value bound is outside the subset (only `_, ok :=`)")
 		}
 		a := tr.expr(r.X, env)
 		if a.typ.kind != kValue {
@@ -530,6 +739,20 @@ func (tr *gtTr) commaOk(vName, okName string, rhs ast.Expr, declare bool, env *v
 		t := tr.g.resolveTypeSoft(tr.p, tr.f, r.Type, 0)
 		if t.valueKind < 0 {
 			gtFail("type assertion to %s, which is not a concrete data type", t.name)
+		}
+		if vName != "_" {
+			// v, ok := x.(data.T): the payload (the zero value when x holds another type) and whether it is a T
+			switch t.kind {
+			case kBool, kInt, kString:
+			default:
+				gtFail("v, ok := x.(%s): only the scalar data types have a zero value in the subset", t.name)
+			}
+			name := "val_as_" + strings.ToLower(valueKinds[t.valueKind])
+			tr.fn.usesV = true
+			tr.fn.valueParams[name] = true
+			pv := ex{binds: a.binds, code: "(match " + name + " " + a.code + " with Some p => p | None => " + zeroOf(t) + " end)", typ: t}
+			okv := ex{code: "(match " + name + " " + a.code + " with Some _ => true | None => false end)", typ: tBool}
+			return tr.bindNew(env, vName, pv, declV, func(e *venv) gnode { return tr.bindNew(e, okName, okv, declOk, next) })
 		}
 		return tr.bindNew(env, okName, ex{binds: a.binds, code: "(Z.eqb " + tr.kindOf(a.code) + " " + zLitInt(int64(t.valueKind)) + ")", typ: tBool}, declOk, next)
 	}
@@ -751,6 +974,9 @@ func singleIfReturn(b *ast.BlockStmt) (*ast.IfStmt, *ast.ReturnStmt) {
 
 // first-match search:  for _, x := range xs { if cond { return e } }
 func (tr *gtTr) rangeStmt(x *ast.RangeStmt, env *venv, next cont) gnode {
+	if !isFirstMatchRange(x) {
+		return tr.generalRange(x, env, next)
+	}
 	if x.Tok != token.DEFINE || x.Value == nil {
 		gtFail("range loop is not `for _, x := range xs`")
 	}
@@ -774,6 +1000,9 @@ func (tr *gtTr) rangeStmt(x *ast.RangeStmt, env *venv, next cont) gnode {
 
 // for i := 0; i < len(s); i++ { if cond(s[i]) { return e } }
 func (tr *gtTr) forStmt(x *ast.ForStmt, env *venv, next cont) gnode {
+	if !isFirstMatchFor(x) {
+		return tr.generalFor(x, env, next)
+	}
 	bad := func() { gtFail("for loop is not `for i := 0; i < len(s); i++ { if cond { return ... } }`") }
 	as, ok := x.Init.(*ast.AssignStmt)
 	if !ok || as.Tok != token.DEFINE || len(as.Lhs) != 1 || len(as.Rhs) != 1 {
@@ -853,6 +1082,7 @@ type gtParam struct {
 	coq    string
 	typ    *gtype
 	fields []string // struct parameter: the field paths read ("f", "f.g"), in binder order
+	ptr    bool     // passed by pointer
 }
 
 type gtAbstract struct{ name, typ string }
@@ -865,10 +1095,11 @@ type gtFn struct {
 	abstract bool
 	params   []gtParam // the Go parameters (receiver first), in order
 	results  []*gtype
+	muts     []gtMut // what the function changes of its receiver / arguments: returned before the results
 	partial  bool
 	// implicit parameters
 	usesV       bool
-	valueParams map[string]bool // v_kind, v_undefined, v_null
+	valueParams map[string]bool // val_kind, val_undefined, val_null, val_of_*, val_as_*
 	preds       map[string]bool // uni_letter, uni_digit, uni_space
 	abstracts   []gtAbstract
 	text        string
@@ -884,10 +1115,10 @@ func (fn *gtFn) addAbstract(a gtAbstract) {
 	fn.abstracts = append(fn.abstracts, a)
 }
 
-var valueParamOrder = []struct{ name, typ string }{{"v_kind", "V -> Z"}, {"v_undefined", "V"}, {"v_null", "V"},
-	{"v_of_bool", "bool -> V"}, {"v_of_int", "Z -> V"}, {"v_of_string", "bstr -> V"},
-	{"v_as_bool", "V -> option bool"}, {"v_as_int", "V -> option Z"}, {"v_as_string", "V -> option bstr"},
-	{"v_as_list", "V -> option (list V)"}, {"v_as_map", "V -> option (list (bstr * V))"}}
+var valueParamOrder = []struct{ name, typ string }{{"val_kind", "V -> Z"}, {"val_undefined", "V"}, {"val_null", "V"},
+	{"val_of_bool", "bool -> V"}, {"val_of_int", "Z -> V"}, {"val_of_string", "bstr -> V"},
+	{"val_as_bool", "V -> option bool"}, {"val_as_int", "V -> option Z"}, {"val_as_string", "V -> option bstr"},
+	{"val_as_list", "V -> option (list V)"}, {"val_as_map", "V -> option (list (bstr * V))"}, {"val_string", "V -> option bstr"}}
 var predOrder = []string{"uni_letter", "uni_digit", "uni_space"}
 
 func (fn *gtFn) implicitBinders() []string {
@@ -933,13 +1164,16 @@ func (fn *gtFn) implicitArgs() []string {
 }
 
 type gtCfg struct {
-	valueOf   string      // fragment: the value of this local variable, from its top-level declaration (inclusive) ...
-	untilDecl string      // ... up to the top-level declaration of this one (exclusive), over fragVars
-	initOf    string      // fragment: translate only the initialiser of the (unique) declaration of this local variable
-	abstract  []string    // callees that stay parameters
-	afterDecl string      // fragment: translate only the statements after the declaration of this variable ...
-	fragVars  [][2]string // ... with these (name, Go type) as additional parameters
-	suffix    string      // ... under the name src_<pkg>_<name>_<suffix>
+	valueOf   string         // fragment: the value of this local variable, from its top-level declaration (inclusive) ...
+	untilDecl string         // ... up to the top-level declaration of this one (exclusive), over fragVars
+	initOf    string         // fragment: translate only the initialiser of the (unique) declaration of this local variable
+	abstract  []string       // callees that stay parameters
+	afterDecl string         // fragment: translate only the statements after the declaration of this variable ...
+	fragVars  [][2]string    // ... with these (name, Go type) as additional parameters
+	suffix    string         // ... under the name src_<pkg>_<name>_<suffix>
+	fuel      map[int]string // loop number (source order, from 1) -> Go expression over what is in scope at the loop: iterations + 1 at most
+	ignore    []string       // calls (as statements) of these package functions are skipped: hooks without a body in the build under check
+	litsOf    []string       // fragment: the constant string arguments of every call of a method with one of these names, in source order (a list)
 }
 
 type gtState struct {
@@ -949,6 +1183,8 @@ type gtState struct {
 	tables       map[string]*gtype // emitted package-level map literals: coq name -> type
 	pending      []string          // texts to emit, in dependency order
 	family       string
+	loopTexts    map[string]string // emitted loop functions, by name
+	joins        bool              // translate ifs whose branches cannot leave as expressions (joinIf)
 }
 
 var gtStates = map[*gen]*gtState{}
@@ -956,7 +1192,7 @@ var gtStates = map[*gen]*gtState{}
 func (g *gen) gtState() *gtState {
 	st := gtStates[g]
 	if st == nil {
-		st = &gtState{fns: map[string]*gtFn{}, cfgs: map[string]*gtCfg{}, tables: map[string]*gtype{}, placeholders: map[string]bool{}}
+		st = &gtState{fns: map[string]*gtFn{}, cfgs: map[string]*gtCfg{}, tables: map[string]*gtype{}, placeholders: map[string]bool{}, loopTexts: map[string]string{}, joins: os.Getenv("GOTRANS_NOJOINS") == ""}
 		gtStates[g] = st
 	}
 	return st
@@ -972,7 +1208,15 @@ func coqFnName(p *gpkg, key, suffix string) string {
 
 // translate returns the translated function dir:key, translating it (and emitting it before the caller) on first use.
 func (st *gtState) translate(g *gen, dir, key string, caller *gtFn) *gtFn {
+	return st.translateCfg(g, dir, key, st.cfgs[dir+":"+key], caller)
+}
+
+// translateCfg: a fragment (a configuration with a suffix) is a translation unit of its own.
+func (st *gtState) translateCfg(g *gen, dir, key string, cfg *gtCfg, caller *gtFn) *gtFn {
 	full := dir + ":" + key
+	if cfg != nil && cfg.suffix != "" {
+		full += "#" + cfg.suffix
+	}
 	fn := st.fns[full]
 	if fn == nil {
 		fn = &gtFn{key: full, valueParams: map[string]bool{}, preds: map[string]bool{}}
@@ -997,7 +1241,7 @@ func (st *gtState) translate(g *gen, dir, key string, caller *gtFn) *gtFn {
 				fn.status, fn.err = 3, ge.msg
 			}
 		}()
-		st.translateFn(g, dir, key, fn)
+		st.translateFn(g, dir, key, fn, cfg)
 		fn.status = 2
 	}()
 	if fn.status == 3 {
@@ -1010,7 +1254,7 @@ func (st *gtState) translate(g *gen, dir, key string, caller *gtFn) *gtFn {
 	return fn
 }
 
-func (st *gtState) translateFn(g *gen, dir, key string, fn *gtFn) {
+func (st *gtState) translateFn(g *gen, dir, key string, fn *gtFn, cfg *gtCfg) {
 	p := g.gtPkg(dir)
 	if p.problem != "" {
 		gtFail("package %s: %s", dir, p.problem)
@@ -1025,24 +1269,32 @@ func (st *gtState) translateFn(g *gen, dir, key string, fn *gtFn) {
 	if fd.Type.TypeParams != nil {
 		gtFail("generic function")
 	}
-	cfg := st.cfgs[dir+":"+key]
 	if cfg == nil {
 		cfg = &gtCfg{}
 	}
 	f := p.funcIn[key]
-	tr := &gtTr{g: g, st: st, p: p, f: f, fn: fn, names: map[string]int{}, abstract: map[string]bool{}, usedFields: map[string]map[string]bool{}, usedVars: map[string]bool{}}
+	tr := &gtTr{g: g, st: st, p: p, f: f, fn: fn, names: map[string]int{}, abstract: map[string]bool{}, usedFields: map[string]map[string]bool{}, usedVars: map[string]bool{}, fieldNames: map[string]bool{},
+		cfg: cfg, loopIndex: map[ast.Node]int{}}
 	for _, a := range cfg.abstract {
 		tr.abstract[a] = true
 	}
+	ast.Inspect(fd.Body, func(n ast.Node) bool {
+		switch n.(type) {
+		case *ast.ForStmt, *ast.RangeStmt:
+			tr.loopIndex[n] = len(tr.loopIndex) + 1
+		}
+		return true
+	})
 	fn.coqName = coqFnName(p, key, cfg.suffix)
 	env := (&venv{}).push()
+	ptrNext := false
 	addParam := func(name string, t *gtype) {
 		if name == "" || name == "_" {
 			name = fmt.Sprintf("unused%d", len(fn.params))
 		}
 		coq := tr.newName(name)
-		fn.params = append(fn.params, gtParam{goName: name, coq: coq, typ: t})
-		v := &gvar{goName: name, typ: t, coq: coq}
+		fn.params = append(fn.params, gtParam{goName: name, coq: coq, typ: t, ptr: ptrNext})
+		v := &gvar{goName: name, typ: t, coq: coq, ptr: ptrNext}
 		if t.kind == kStruct {
 			v.coq = "v_" + name
 		}
@@ -1054,12 +1306,15 @@ func (st *gtState) translateFn(g *gen, dir, key string, fn *gtFn) {
 		if len(fd.Recv.List[0].Names) == 1 {
 			name = fd.Recv.List[0].Names[0].Name
 		}
+		_, ptrNext = fd.Recv.List[0].Type.(*ast.StarExpr)
 		addParam(name, g.resolveType(p, f, fd.Recv.List[0].Type, 0))
+		ptrNext = false
 		sig = append(sig, "("+name+" "+typeText(fd.Recv.List[0].Type)+")")
 	}
 	var ps []string
 	for _, fl := range fd.Type.Params.List {
 		t := g.resolveType(p, f, fl.Type, 0)
+		_, ptrNext = fl.Type.(*ast.StarExpr)
 		if len(fl.Names) == 0 {
 			addParam("", t)
 			ps = append(ps, typeText(fl.Type))
@@ -1068,19 +1323,32 @@ func (st *gtState) translateFn(g *gen, dir, key string, fn *gtFn) {
 			addParam(n.Name, t)
 			ps = append(ps, n.Name+" "+typeText(fl.Type))
 		}
+		ptrNext = false
 	}
 	var rs []string
+	type namedResult struct {
+		name string
+		typ  *gtype
+	}
+	var namedResults []namedResult
+	namedUsed := false
 	if fd.Type.Results != nil && cfg.valueOf == "" && cfg.initOf == "" {
 		for _, fl := range fd.Type.Results.List {
-			if len(fl.Names) > 0 {
-				gtFail("named results are outside the subset")
-			}
 			t := g.resolveType(p, f, fl.Type, 0)
 			if !t.supported() {
 				gtFail("result type %s is outside the subset", t.name)
 			}
-			fn.results = append(fn.results, t)
-			rs = append(rs, typeText(fl.Type))
+			for _, n := range fl.Names {
+				// named results are local variables that start at their zero values (declared only if the body uses one)
+				namedResults = append(namedResults, namedResult{n.Name, t})
+				if n.Name != "_" && mentions(fd.Body, n.Name) {
+					namedUsed = true
+				}
+			}
+			for i := 0; i < len(fl.Names) || i == 0; i++ {
+				fn.results = append(fn.results, t)
+				rs = append(rs, typeText(fl.Type))
+			}
 		}
 	}
 	body := fd.Body.List
@@ -1150,12 +1418,59 @@ func (st *gtState) translateFn(g *gen, dir, key string, fn *gtFn) {
 			gtFail("fragment: %d declarations of %s with an initialiser (expected exactly one)", len(inits), cfg.initOf)
 		}
 		fragExpr = inits[0]
+		for _, fv := range cfg.fragVars {
+			addParam(fv[0], g.resolveType(p, f, gtParseExpr(fv[1]), 0))
+		}
 		fn.results = nil
 		sig = append(sig, "[the initialiser of "+cfg.initOf+"]")
 		fragInit = true
 	}
-	if len(fn.results) == 0 && !fragInit && !fragValue {
-		gtFail("no result (a function with effects only)")
+	// what the function changes of its receiver and arguments
+	if !fragInit {
+		var scan []ast.Node
+		for _, st := range body {
+			scan = append(scan, st)
+		}
+		keys, elems, whole := tr.assignedIn(scan, env)
+		for pi, prm := range fn.params {
+			if prm.typ.kind == kStruct {
+				for _, fl := range prm.typ.fields {
+					if keys[stKey{prm.goName, fl.name}] {
+						if !prm.ptr {
+							gtFail("assignment to field %s of %s, which is passed by value", fl.name, prm.goName)
+						}
+						if !fl.typ.supported() {
+							gtFail("assignment to field %s.%s of type %s", prm.goName, fl.name, fl.typ.name)
+						}
+						fn.muts = append(fn.muts, gtMut{pi, fl.name, fl.typ})
+					}
+				}
+				continue
+			}
+			k := stKey{prm.goName, ""}
+			if prm.ptr && keys[k] {
+				// s *T with T a named slice / map: `*s = e` and element assignments both reach the caller
+				if !prm.typ.supported() {
+					gtFail("assignment through %s of type %s", prm.goName, prm.typ.name)
+				}
+				fn.muts = append(fn.muts, gtMut{pi, "", prm.typ})
+			} else if elems[k] {
+				if whole[k] {
+					gtFail("%s is both reassigned and has its elements assigned (aliasing is outside the subset)", prm.goName)
+				}
+				if !prm.typ.supported() {
+					gtFail("assignment to elements of %s of type %s", prm.goName, prm.typ.name)
+				}
+				fn.muts = append(fn.muts, gtMut{pi, "", prm.typ})
+			}
+		}
+		tr.elemMut = len(elems) > 0
+		if len(fn.muts) > 0 && (fragInit || fragValue || cfg.afterDecl != "") {
+			gtFail("fragment of a function that changes its receiver or arguments")
+		}
+	}
+	if len(fn.results) == 0 && len(fn.muts) == 0 && !fragInit && !fragValue {
+		gtFail("no result and no change of the receiver or an argument (a function with other effects only)")
 	}
 	fn.sig = strings.TrimSpace(strings.Join(sig, " ") + " " + fd.Name.Name + "(" + strings.Join(ps, ", ") + ") " + strings.Join(rs, ", "))
 	var node gnode
@@ -1190,10 +1505,30 @@ func (st *gtState) translateFn(g *gen, dir, key string, fn *gtFn) {
 			gtFail("fragment: the end is never reached")
 		}
 	} else {
-		node = tr.block(body, env, func(*venv) gnode {
-			gtFail("control can reach the end of the function without a return")
-			return nil
-		})
+		if !namedUsed {
+			namedResults = nil
+		}
+		for _, nr := range namedResults {
+			if nr.name == "_" {
+				gtFail("a blank named result next to named results that are used")
+			}
+		}
+		var declNamed func(i int, e *venv) gnode
+		declNamed = func(i int, e *venv) gnode {
+			if i == len(namedResults) {
+				return tr.block(body, e, func(e *venv) gnode {
+					if len(fn.results) == 0 && len(fn.muts) > 0 {
+						return tr.stmt(&ast.ReturnStmt{}, e, nil)
+					}
+					gtFail("control can reach the end of the function without a return")
+					return nil
+				})
+			}
+			nr := namedResults[i]
+			tr.named = append(tr.named, nr.name)
+			return tr.bindNew(e, nr.name, ex{code: zeroOf(nr.typ), typ: nr.typ}, true, func(e2 *venv) gnode { return declNamed(i+1, e2) })
+		}
+		node = declNamed(0, env)
 	}
 	fn.partial = nodePartial(node)
 
@@ -1237,6 +1572,12 @@ func (st *gtState) translateFn(g *gen, dir, key string, fn *gtFn) {
 	}
 	binders = append(fn.implicitBinders(), binders...)
 	var rts []string
+	for _, m := range fn.muts {
+		rts = append(rts, paren(m.typ.coq()))
+		if m.typ.usesValue() {
+			fn.usesV = true
+		}
+	}
 	for _, r := range fn.results {
 		rts = append(rts, paren(r.coq()))
 	}
@@ -1250,8 +1591,29 @@ func (st *gtState) translateFn(g *gen, dir, key string, fn *gtFn) {
 	if bs != "" {
 		bs = " " + bs
 	}
-	fmt.Fprintf(&sb, "Definition %s%s : %s :=\n  %s.\n", fn.coqName, bs, rt, render(node, fn.partial, "  "))
+	fmt.Fprintf(&sb, "Definition %s%s : %s :=\n  %s.\n", fn.coqName, bs, rt, render(node, boolInt(fn.partial), "  "))
 	fn.text = sb.String()
+}
+
+// mutKeys: the function's changed state, as state of its own environment.
+func (tr *gtTr) mutKeys() []stKey {
+	var out []stKey
+	for _, m := range tr.fn.muts {
+		out = append(out, stKey{tr.fn.params[m.prm].goName, m.f})
+	}
+	return out
+}
+
+// mentions: does the identifier occur anywhere in n?
+func mentions(n ast.Node, name string) bool {
+	found := false
+	ast.Inspect(n, func(n ast.Node) bool {
+		if id, ok := n.(*ast.Ident); ok && id.Name == name {
+			found = true
+		}
+		return true
+	})
+	return found
 }
 
 func boolInt(b bool) int {
@@ -1332,7 +1694,7 @@ func (st *gtState) mapTable(g *gen, p *gpkg, name string, user *gtFn) (string, *
 	if assignedElsewhere(p, name) {
 		gtFail("package variable %s is assigned to somewhere in the package", name)
 	}
-	tr := &gtTr{g: g, st: st, p: p, f: f, fn: &gtFn{valueParams: map[string]bool{}, preds: map[string]bool{}}, names: map[string]int{}, abstract: map[string]bool{}, usedFields: map[string]map[string]bool{}, usedVars: map[string]bool{}}
+	tr := &gtTr{g: g, st: st, p: p, f: f, fn: &gtFn{valueParams: map[string]bool{}, preds: map[string]bool{}}, names: map[string]int{}, abstract: map[string]bool{}, usedFields: map[string]map[string]bool{}, usedVars: map[string]bool{}, fieldNames: map[string]bool{}}
 	env := (&venv{}).push()
 	var rows []string
 	seen := map[string]bool{}
@@ -1480,7 +1842,7 @@ func gtFamily(name string, items []gtItem) {
 			g.js["gotrans"] = js
 		}
 		for _, it := range items {
-			if it.cfg != nil {
+			if it.cfg != nil && it.cfg.suffix == "" {
 				st.cfgs[it.dir+":"+it.key] = it.cfg
 			}
 		}
@@ -1510,6 +1872,40 @@ func gtFamily(name string, items []gtItem) {
 					fn = &gtFn{status: 2, coqName: name}
 					return
 				}
+				if it.cfg != nil && len(it.cfg.litsOf) > 0 {
+					p := g.gtPkg(it.dir)
+					fd := p.funcs[it.key]
+					if fd == nil || fd.Body == nil {
+						gtFail("function not found")
+					}
+					var lits, shown []string
+					ast.Inspect(fd.Body, func(n ast.Node) bool {
+						c, ok := n.(*ast.CallExpr)
+						if !ok {
+							return true
+						}
+						sel, ok := c.Fun.(*ast.SelectorExpr)
+						if !ok {
+							return true
+						}
+						for _, m := range it.cfg.litsOf {
+							if sel.Sel.Name == m {
+								for _, a := range c.Args {
+									if v, _, ok := g.constEval(p, p.funcIn[it.key], a, -1, func(string) bool { return false }); ok && v.Kind() == constant.String {
+										lits = append(lits, bstrLit(constant.StringVal(v)))
+										shown = append(shown, fmt.Sprintf("%q", constant.StringVal(v)))
+									}
+								}
+							}
+						}
+						return true
+					})
+					name := coqFnName(p, it.key, it.cfg.suffix)
+					st.pending = append(st.pending, fmt.Sprintf("(* %s: the constant string arguments of the calls of %s in %s, in source order:\n   %s *)\nDefinition %s : list bstr :=\n  [%s].\n",
+						p.dir, strings.Join(it.cfg.litsOf, " / "), it.key, strings.ReplaceAll(strings.ReplaceAll(strings.Join(shown, " "), "(*", "( *"), "*)", "* )"), name, strings.Join(lits, ";\n   ")))
+					fn = &gtFn{status: 2, coqName: name}
+					return
+				}
 				if strings.HasPrefix(it.key, "var:") {
 					p := g.gtPkg(it.dir)
 					if _, ok := p.vars[it.key[4:]]; !ok {
@@ -1519,9 +1915,12 @@ func gtFamily(name string, items []gtItem) {
 					fn = &gtFn{status: 2, coqName: name}
 					return
 				}
-				fn = st.translate(g, it.dir, it.key, nil)
+				fn = st.translateCfg(g, it.dir, it.key, it.cfg, nil)
 			}()
 			what := it.dir + ":" + it.key
+			if it.cfg != nil && it.cfg.suffix != "" {
+				what += "#" + it.cfg.suffix
+			}
 			if fn.status != 2 {
 				g.fail("gotrans: %s: %s", what, fn.err)
 				js[what] = map[string]interface{}{"family": name, "ok": false, "why": fn.err}
@@ -1575,3 +1974,136 @@ func familyDirs(items []gtItem) string {
 }
 
 var _ = constant.MakeInt64
+
+// the two first-match idioms keep their translation through List.find (the lemmas about them rest on it)
+func isIfReturnBody(b *ast.BlockStmt) bool {
+	if len(b.List) != 1 {
+		return false
+	}
+	ifs, ok := b.List[0].(*ast.IfStmt)
+	if !ok || ifs.Init != nil || ifs.Else != nil || len(ifs.Body.List) != 1 {
+		return false
+	}
+	_, ok = ifs.Body.List[0].(*ast.ReturnStmt)
+	return ok
+}
+
+func isFirstMatchRange(x *ast.RangeStmt) bool {
+	k, ok := x.Key.(*ast.Ident)
+	return ok && k.Name == "_" && x.Tok == token.DEFINE && x.Value != nil && isIfReturnBody(x.Body)
+}
+
+func isFirstMatchFor(x *ast.ForStmt) bool {
+	as, ok := x.Init.(*ast.AssignStmt)
+	if !ok || as.Tok != token.DEFINE || len(as.Lhs) != 1 || len(as.Rhs) != 1 || !isIfReturnBody(x.Body) {
+		return false
+	}
+	iv, ok := as.Lhs[0].(*ast.Ident)
+	if z, isInt := intLit(as.Rhs[0]); !ok || !isInt || z != 0 {
+		return false
+	}
+	cond, ok := x.Cond.(*ast.BinaryExpr)
+	if !ok || cond.Op != token.LSS || !isIdent(cond.X, iv.Name) {
+		return false
+	}
+	lc, ok := cond.Y.(*ast.CallExpr)
+	if !ok || !isIdent(lc.Fun, "len") || len(lc.Args) != 1 {
+		return false
+	}
+	if _, ok := unparen(lc.Args[0]).(*ast.Ident); !ok {
+		return false
+	}
+	inc, ok := x.Post.(*ast.IncDecStmt)
+	if !ok || inc.Tok != token.INC || !isIdent(inc.X, iv.Name) {
+		return false
+	}
+	// the loop variable may be used only as s[i]: otherwise it is a general loop
+	sname := unparen(lc.Args[0]).(*ast.Ident).Name
+	okUse := true
+	var parents []ast.Node
+	ast.Inspect(x.Body, func(n ast.Node) bool {
+		if n == nil {
+			parents = parents[:len(parents)-1]
+			return true
+		}
+		if id, ok := n.(*ast.Ident); ok && id.Name == iv.Name {
+			ix, isIx := parents[len(parents)-1].(*ast.IndexExpr)
+			if !isIx || !isIdent(unparen(ix.X), sname) || unparen(ix.Index) != ast.Expr(id) {
+				okUse = false
+			}
+		}
+		parents = append(parents, n)
+		return true
+	})
+	return okUse
+}
+
+// joinIf: an if whose branches cannot leave (no return, break, continue, goto, panic) and assign at least one variable
+// that is visible outside is translated as an expression; what follows it is translated once.
+func (tr *gtTr) joinIf(x *ast.IfStmt, cond ex, env *venv, next cont) (gnode, bool) {
+	if !tr.st.joins {
+		return nil, false
+	}
+	leaves := false
+	var check func(n ast.Node)
+	check = func(n ast.Node) {
+		ast.Inspect(n, func(n ast.Node) bool {
+			switch y := n.(type) {
+			case *ast.ReturnStmt, *ast.BranchStmt, *ast.LabeledStmt, *ast.FuncLit, *ast.GoStmt, *ast.DeferStmt:
+				leaves = true
+			case *ast.CallExpr:
+				if _, ok := tr.diverges(y, env); ok {
+					leaves = true
+				}
+				if isIdent(y.Fun, "panic") {
+					leaves = true
+				}
+			}
+			return !leaves
+		})
+	}
+	check(x.Body)
+	if x.Else != nil {
+		check(x.Else)
+	}
+	if leaves {
+		return nil, false
+	}
+	nodes := []ast.Node{x.Body}
+	if x.Else != nil {
+		nodes = append(nodes, x.Else)
+	}
+	keys, _, _ := tr.assignedIn(nodes, env)
+	state := sortKeys(keys, env)
+	if len(state) == 0 {
+		return nil, false
+	}
+	for _, k := range state {
+		if _, t := tr.keyName(env, k); !t.supported() {
+			return nil, false
+		}
+	}
+	tupleK := func(e *venv) gnode {
+		var names []string
+		for _, k := range state {
+			n, _ := tr.useKey(e, k)
+			names = append(names, n)
+		}
+		return &nTuple{names: names}
+	}
+	a := tr.scoped(env.clone(), tupleK, func(e2 *venv, nx2 cont) gnode { return tr.block(x.Body.List, e2, nx2) })
+	var b gnode
+	if x.Else == nil {
+		b = tupleK(env.clone())
+	} else {
+		b = tr.stmt(x.Else, env.clone(), tupleK)
+	}
+	inner := &nIf{cond: cond, a: a, b: b}
+	var names []string
+	for _, k := range state {
+		n := tr.newName(k.base())
+		tr.setKeyName(env, k, n)
+		names = append(names, n)
+	}
+	return &nJoin{inner: inner, partial: nodePartial(inner), names: names, body: next(env)}, true
+}
